@@ -4,6 +4,7 @@ import (
 	"context"
 	"encoding/json"
 	"fmt"
+	"io"
 	"os"
 )
 
@@ -33,6 +34,15 @@ func (j JsonLoader) Load(_ context.Context, filePath string) (PackageDTO, bool, 
 			"failed to decode JSON file %s: %w",
 			filePath,
 			err)
+	}
+
+	// The file must consist of exactly one JSON value: anything but whitespace after
+	// it means the file is malformed (Decode stops reading after the first value).
+	var trailing json.RawMessage
+	if trailingErr := decoder.Decode(&trailing); trailingErr != io.EOF {
+		return pkg, true, fmt.Errorf(
+			"failed to decode JSON file %s: unexpected data after the package definition",
+			filePath)
 	}
 
 	return pkg, true, nil
